@@ -74,6 +74,10 @@ class World:
         # explicit starting point of ML training (handed over to the machine through its setters)
         self.g0 = (np.array([0.5, 0.5]), np.array([[0.5, 0.0], [2.0, 1.5]]), np.array([[1.0, 1.0], [2.0, 0.5]]))
         self.objs = {}      # step index -> {"rk", "obj", "value" (copies taken when returned), "lazy"}
+        # non-default configurations of the entry points, constant within one behaviour (so that a repeated call
+        # is the same call): i-vector training without covariance updating and with a floor above some of the
+        # UBM's variances, k-means / GMM with or without a convergence threshold
+        self.cfg = {"iv_update_sigma": bool(r.rand() < 0.5), "iv_floor": float(r.choice([1e-10, 0.9, 1.2]))}
 
     # -- caller cells
     def cell(self, name):
@@ -203,7 +207,8 @@ class World:
             return self.machine(m).transform(self.X)
         if op == "IvFit":
             np.random.seed(20260927)    # the initial T is drawn from NumPy's global generator
-            return em.IVectorMachine(self.prior, dim_t=2, max_iterations=2).fit(self.lst(form))
+            return em.IVectorMachine(self.prior, dim_t=2, max_iterations=2, update_sigma=self.cfg["iv_update_sigma"],
+                                     variance_floor=self.cfg["iv_floor"]).fit(self.lst(form))
         if op == "IvProject":
             return self.machine(m).project(self.stats[0])
         if op == "IvTransform":
